@@ -75,6 +75,13 @@ Calibration (unchanged tree)
   ddof up to 2 whatever the NaN count: np.nanvar documents NaN for count <= ddof.)
 * arg-reductions: a result equal to NumPy's is accepted before the "index holds the extreme" facet is applied:
   np.nanargmin([nan, inf]) returns 0 (NumPy substitutes +inf for NaN and takes the first), which dask reproduces.
+
+Sibling facet (vf/mon/siblings.py): every case is also built a second time with ONE result-relevant parameter changed
+(another axis / keepdims / ddof / split_every / order / scan method / k / q / quantile method / dtype=).
+The two lazily built collections must not share output keys unless their stand-alone values are equal (label
+``<op>:<param>-not-in-name:siblings-share-keys``); for a seeded ~15 % of the cases both are also computed in one graph and
+compared with their stand-alone values (``<op>:<param>:differs-when-computed-with-sibling``).  Counters siblings_built /
+siblings_computed_together / siblings_with_different_values have floors.
 """
 from __future__ import annotations
 
